@@ -163,6 +163,16 @@ def run_call(ctx, p):
     w = diff_where(before, after)
     ctx.judge('args_unchanged', w is None, dict(sig, kind='argument_modified', raised=o1[0] == 'exc'),
               lambda: '%s(%s, %s) on %s modified its input at %s (call %s)' % (e['name'], core.short(core.J(args), 300), kwargs, type(recv).__name__, w, 'raised %r' % o1[1] if o1[0] == 'exc' else 'returned'))
+    # what the first call returned belongs to the caller: a later call (with other values) must not reach back into it
+    if o1[0] == 'ok' and p.get('alt_args') is not None:
+        try:
+            snap1 = snapshot(o1[1])
+        except Exception:
+            snap1 = None
+        if snap1 is not None:
+            do(clone(p['alt_args']), clone(p['alt_kwargs']), clone(recv))
+            ctx.judge('deterministic', snapshot(o1[1]) == snap1, dict(sig, kind='earlier_result_changed_by_later_call'),
+                      lambda: '%s: the value returned by one call changed when the function was called again with other arguments' % e['name'])
     o2 = do(a2, k2, r2)
     if o1[0] == 'ok' and o2[0] == 'ok':
         ctx.judge('deterministic', same(o1[1], o2[1]), dict(sig, kind='second_evaluation_differs'),
@@ -516,7 +526,8 @@ def run(ctx):
                     continue
                 args, kwargs, recv = build(rng, e, form)
                 rd = None if recv is None else [type(recv).__name__, [np.array(v) for v in recv.data]]
-                drive(RUNNERS, ctx, 'call', dict(entry=ei, args=args, kwargs=kwargs, recv=rd, form=form))
+                alt = build(rng, e, form)
+                drive(RUNNERS, ctx, 'call', dict(entry=ei, args=args, kwargs=kwargs, recv=rd, form=form, alt_args=alt[0], alt_kwargs=alt[1]))
     # random constructors: unchanged arguments only (kwargs carry the numpy seed)
     driven, skipped = 0, []
     for c in CLS:
